@@ -135,7 +135,7 @@ macro_rules! convert_float_to_uint {
                 #[inline]
                 fn into_stimulus(self) -> $direct_target {
                     let max = $direct_target::max_intensity() as $float;
-                    let scaled = (self * max).min(max);
+                    let scaled = (self * max).min(max).max(0.0);
                     let f = scaled + f32::from_bits(C23);
                     (f.to_bits().saturating_sub(C23)) as $direct_target
                 }
@@ -148,9 +148,15 @@ macro_rules! convert_float_to_uint {
                     #[inline]
                     fn into_stimulus(self) -> $target {
                         let max = $target::max_intensity() as $temporary;
-                        let scaled = (self as $temporary * max).min(max);
-                        let f = scaled + f64::from_bits(C52);
-                        (f.to_bits().saturating_sub(C52)) as  $target
+                        let scaled = (self as $temporary * max).min(max).max(0.0);
+                        if scaled < f64::from_bits(C52) {
+                            let f = scaled + f64::from_bits(C52);
+                            (f.to_bits().saturating_sub(C52)) as $target
+                        } else {
+                            // Already an integer, and outside the range of
+                            // the rounding trick. The cast saturates.
+                            scaled as $target
+                        }
                     }
                 }
             )+
@@ -167,9 +173,15 @@ macro_rules! convert_double_to_uint {
                 #[inline]
                 fn into_stimulus(self) -> $direct_target {
                     let max = $direct_target::max_intensity() as $double;
-                    let scaled = (self * max).min(max);
-                    let f = scaled + f64::from_bits(C52);
-                    (f.to_bits().saturating_sub(C52)) as $direct_target
+                    let scaled = (self * max).min(max).max(0.0);
+                    if scaled < f64::from_bits(C52) {
+                        let f = scaled + f64::from_bits(C52);
+                        (f.to_bits().saturating_sub(C52)) as $direct_target
+                    } else {
+                        // Already an integer, and outside the range of the
+                        // rounding trick. The cast saturates.
+                        scaled as $direct_target
+                    }
                 }
             }
         )+
